@@ -13,10 +13,10 @@ import (
 
 func init() { wk.Register("c20", c20) }
 
-var c20Schemes = []string{"", "http://", "https://", "tg://", "ftp://"}
+var c20Schemes = []string{"", "http://", "https://", "tg://", "ftp://", "//"}
 var c20Hosts = append(append([]string{}, link.Reserved...),
 	"t.me.evil.com", "xt.me", "T.ME", "tele\u017fco.pe", "telegram.\u017fe", "teleſco.pe", "t.me\u212a", "Telegram.Me", "tеlegram.me" /* cyrillic e */, "example.com", "t.m", "me", "telegram.org", "")
-var c20Ports = []string{"", ":443"}
+var c20Ports = []string{"", ":443", ":80", ":8443", ":1", ":65535"}
 var c20Suffix = []string{"", "?a=b", "#frag", "?start=1#frag"}
 
 var c20Atoms = []link.Seg{
@@ -164,7 +164,7 @@ func c20(c *wk.Ctx) {
 	for k := 0; k < n; k++ {
 		if c.Mine(idx) {
 			r := c.Rand(idx)
-			p := link.Parts{Scheme: c20Schemes[r.Intn(len(c20Schemes))], Host: c20Hosts[r.Intn(len(c20Hosts))], Port: c20Ports[r.Intn(2)],
+			p := link.Parts{Scheme: c20Schemes[r.Intn(len(c20Schemes))], Host: c20Hosts[r.Intn(len(c20Hosts))], Port: c20Ports[r.Intn(len(c20Ports))],
 				Suffix: c20Suffix[r.Intn(len(c20Suffix))], Trailing: r.Intn(6) == 0}
 			if r.Intn(2) == 0 {
 				p.Host = link.Reserved[r.Intn(len(link.Reserved))]
@@ -189,7 +189,7 @@ func c20(c *wk.Ctx) {
 			r := c.Rand(idx)
 			var links []string
 			for j := 0; j < 300; j++ {
-				p := link.Parts{Scheme: c20Schemes[r.Intn(len(c20Schemes))], Host: c20Hosts[r.Intn(len(c20Hosts))], Port: c20Ports[r.Intn(2)], Suffix: c20Suffix[r.Intn(len(c20Suffix))]}
+				p := link.Parts{Scheme: c20Schemes[r.Intn(len(c20Schemes))], Host: c20Hosts[r.Intn(len(c20Hosts))], Port: c20Ports[r.Intn(len(c20Ports))], Suffix: c20Suffix[r.Intn(len(c20Suffix))]}
 				if r.Intn(2) == 0 {
 					p.Host = link.Reserved[r.Intn(len(link.Reserved))]
 				}
